@@ -61,8 +61,8 @@ CLAIMED = {
          "and own name/workgroup/pid/port, junk ignored statelessly, collector = matching id and other name. Tie: real _UdpResponder._handle_read on a scripted socket, real "
          "unpack_qmi_udp_packet, real ping_qmi_contexts/discover_peer_contexts on scripted socket/selector/clock; gmatch vs fnmatch.fnmatchcase differential.",
     note="Trusted: Coq kernel+vm_compute; hand model; harness; fnmatch.fnmatchcase, strict UTF-8 and ctypes layout are transcribed and compared, not verified. The kill request is never "
-         "generated. Exceptions escaping the read callback count as 'ignored'. Real broadcast delivery is outside.",
-    technique="executable Gallina model + induction proofs + vm_compute correspondence + fnmatch differential"),
+         "generated. Compared: which datagrams are accepted/answered, decoded fields, bytes of every answer, the set of peers reported. NOT compared (left open by the property, recorded as observations): the exception class of a rejection, whether the handler returns or raises into the loop, log output, receive buffer size (live-read), datagrams handled per wake-up, order of reported peers, the asker's id source, socket hygiene. Responder survival is a claim, checked on the implementation after every sequence (reader still registered, socket open, no SystemExit/KeyboardInterrupt into the loop, a probe request answered). Real broadcast delivery is outside.",
+    technique="executable Gallina model + induction proofs + vm_compute correspondence + fnmatch differential; fixed bucket of field-straddling filters and '/' workgroups; burst delivery with an asyncio-like scripted loop"),
  "C20": dict(category="proof", design_ref="7 (C20)",
     text="18 Coq theorems (all closed, unbounded, arbitrary upper/lower functions) on an executable model of the ADbasic parser analysis and the AdwinProcess accessors: binding one-to-one "
          "under case folding and equal to the recognised definitions; errors located at an offending definition and clashing definitions always rejected; _find_sequential_ranges = sorted "
